@@ -28,3 +28,29 @@ func init() {
 		Blocks:   tierMap(250, 600),
 	})
 }
+
+func init() {
+	Register(&PropDef{
+		ID: "C03",
+		Profile: func(tier string, r *Rng) Profile {
+			return Profile{Name: "c03-supply", MinTx: 3, MaxTx: 8, Hostile: 0.12, NoFaults: true, GapBig: 0.07, Gov: true,
+				W:         map[string]float64{"govProposal": 2.5, "govVote": 8, "tip": 10, "withdrawTokens": 4, "claimDeposits": 2, "withdrawFeeRefund": 4, "proposeDispute": 4, "vote": 7},
+				Fragments: []string{"mintInit"}}
+		},
+		Monitors: func(st *Stats) []Monitor { return []Monitor{NewC03Monitor(st)} },
+		Cases:    tierMap(24, 128),
+		Blocks:   tierMap(300, 600),
+	})
+	Register(&PropDef{
+		ID: "C04",
+		Profile: func(tier string, r *Rng) Profile {
+			return Profile{Name: "c04-escrow", MinTx: 3, MaxTx: 8, Hostile: 0.15, VoteFault: 0.02, GapBig: 0.06, Gov: true,
+				W: map[string]float64{"tip": 12, "submit": 22, "withdrawTip": 7, "createReporter": 5, "selectReporter": 6, "switchReporter": 2.5, "delegate": 6, "proposeDispute": 3.5, "vote": 7,
+					"withdrawFeeRefund": 4, "claimReward": 5, "govProposal": 1, "govVote": 4},
+				Fragments: []string{"mintInit"}}
+		},
+		Monitors: func(st *Stats) []Monitor { return []Monitor{NewC04Monitor(st)} },
+		Cases:    tierMap(24, 128),
+		Blocks:   tierMap(300, 600),
+	})
+}
